@@ -508,8 +508,15 @@ macro_rules! op_assign {
                 fxn_input.push(source.clone());
                 let ixes = subscript_formula_ix(&subs[0], env, p)?;
                 let shape = ixes.shape();
-                fxn_input.push(ixes);
+                // a scalar index is a one-element index vector for the op-assign kernels
+                // (MatrixAssignScalar would overwrite the element with the operand)
+                let scalar_ix = matches!(ixes, Value::Index(_));
                 match shape[..] {
+                  [1,1] if scalar_ix => fxn_input.push(Value::MatrixIndex(Matrix::DVector(Ref::new(na::DVector::from_vec(vec![ixes.as_usize()?]))))),
+                  _ => fxn_input.push(ixes),
+                }
+                match shape[..] {
+                  [1,1] if scalar_ix => plan.borrow_mut().push([<$op AssignRange>]{}.compile(&fxn_input)?),
                   [1,1] => plan.borrow_mut().push(MatrixAssignScalar{}.compile(&fxn_input)?),
                   [1,n] => plan.borrow_mut().push([<$op AssignRange>]{}.compile(&fxn_input)?),
                   [n,1] => plan.borrow_mut().push([<$op AssignRange>]{}.compile(&fxn_input)?),
@@ -520,9 +527,14 @@ macro_rules! op_assign {
                 fxn_input.push(source.clone());
                 let ix = subscript_formula_ix(&subs[0], env, p)?;
                 let shape = ix.shape();
-                fxn_input.push(ix);
+                let scalar_ix = matches!(ix, Value::Index(_));
+                match shape[..] {
+                  [1,1] if scalar_ix => fxn_input.push(Value::MatrixIndex(Matrix::DVector(Ref::new(na::DVector::from_vec(vec![ix.as_usize()?]))))),
+                  _ => fxn_input.push(ix),
+                }
                 fxn_input.push(Value::IndexAll);
                 match shape[..] {
+                  [1,1] if scalar_ix => plan.borrow_mut().push([<$op AssignRangeAll>]{}.compile(&fxn_input)?),
                   [1,1] => plan.borrow_mut().push(MatrixAssignScalarAll{}.compile(&fxn_input)?),
                   [1,n] => plan.borrow_mut().push([<$op AssignRangeAll>]{}.compile(&fxn_input)?),
                   [n,1] => plan.borrow_mut().push([<$op AssignRangeAll>]{}.compile(&fxn_input)?),
